@@ -23,7 +23,9 @@ def run(ctx):
     sweep.exactly_once_rule(ctx, "C02.R2b")
     sweep.settings_construction_rule(ctx, "C02.R2c")
     sweep.placeholder_rule(ctx, "C02.R3")
+    sweep.nan_placeholder_rule(ctx, "C02.R5")
     sweep.dispatch_rule(ctx, "C02.R4")
+    sweep.row_pairing_rule(ctx, "C02.R6", title="flat / table output of a cases run: row k pairs the k-th requested setting with its own result, in every configuration")
     prog = ctx.prog
     names = [CR + "." + n for n in ("combo_runner_core", "_unflatten", "nan_like_result", "infer_shape")]
     names += [PREP + "." + n for n in ("parse_cases",)] + ["xyzpy.gen.case_runner.case_runner"]
